@@ -195,9 +195,17 @@ pub struct Cont {
     pub flocks: BTreeMap<A, u32>,
     pub nlocks: BTreeMap<Id, u32>,
     pub vault_of: Option<usize>,
+    /// the engine has written the container's liquid-balance substate in this transaction
+    pub written: bool,
+    /// a proof locked (part of) this container at some point of the transaction
+    pub ever_locked: bool,
 }
 
 impl Cont {
+    /// number of live locks (proofs) on this container
+    pub fn lock_count(&self) -> u32 {
+        self.flocks.values().sum::<u32>() + self.nlocks.values().copied().max().unwrap_or(0)
+    }
     pub fn locked(&self) -> bool {
         !self.flocks.is_empty() || !self.nlocks.is_empty()
     }
